@@ -218,6 +218,7 @@ def check_c19(tier: str) -> int:
             ac5 = r5.at.air_conditioners[0]
             calls = [(1, [p]) for p in range(3)] + [(2, [m, on]) for m in range(5) for on in (0, 1)] + [(3, [f]) for f in range(8)]
             calls += [(4, [float(t)]) for t in rng.sample(range(5, 41), 8)]
+            calls += [(6, [t, rng.randrange(24), rng.randrange(60)]) for t in (0, 1)] + [(7, [0]), (7, [1]), (5, [rng.randrange(2), rng.randrange(1440)])]
             jobs = [("ac", ac4, ac5, c, a) for c, a in calls]
             for z4, z5 in zip(ac4.zones, ac5.zones):
                 zc = [(11, [p]) for p in range(3)] + [(12, [float(t)]) for t in rng.sample(range(8, 38), 6)] + [(13, [p]) for p in rng.sample(range(-5, 106), 8)]
@@ -242,6 +243,23 @@ def check_c19(tier: str) -> int:
                     if o4[1] != o5[1]:
                         ck.violation("the same request is sent with different retry policies",
                                      dict(rep, trigger={"class": "policy"}, failure=f"AirTouch 4 policy {o4[1]}, AirTouch 5 policy {o5[1]}"))
+                    if call in (5, 6, 7) and len(f4) == 1 and len(f5) == 1:
+                        # quick timers are not in the vendor documents: compare the decoded messages
+                        s4 = getattr(f4[0][6], "sub_message", f4[0][6])
+                        s5 = getattr(f5[0][6], "sub_message", f5[0][6])
+                        if call == 5:
+                            m4 = (s4.ac_number, s4.timer_type.name, s4.duration)
+                            m5 = (s5.ac_number, s5.timer_type.name, s5.duration)
+                        else:
+                            n = t4.ac_id
+                            rec4 = [r for r in s4.ac_timer_status if r.ac_number == n][-1]
+                            rec5 = [r for r in s5.ac_timer_status if r.ac_number == n][-1]
+                            tup = lambda r: (r.ac_number, dataclasses.astuple(r.on_timer), dataclasses.astuple(r.off_timer))
+                            m4, m5 = tup(rec4), tup(rec5)
+                        if m4 != m5:
+                            ck.violation("the same quick-timer request means different things on the two wires",
+                                         dict(rep, trigger={"class": "meaning-timer"}, failure=f"AirTouch 4 sends {m4}, AirTouch 5 sends {m5}"))
+                        continue
                     if len(f4) == 1 and len(f5) == 1:
                         q4 = check_api.spec_request(4, kind, f4[0])
                         q5 = check_api.spec_request(5, kind, f5[0])
